@@ -89,6 +89,8 @@ def run_unit(unit, progress):
             prof = dict(prof, kinds=2)
             inc("revisit_programs")
         rnd = random.Random(cs ^ 0xC04)
+        if i % 3 == 1 and prof["kinds"] > 1:
+            inc("yields_asking_two_batch_kinds_for_the_same_key", gen.equalise_items(prog, random.Random(cs ^ 0xE9), 0.6))
         try:
             exp_rrt = ref.evaluate(prog)
             single = prof["kinds"] == 1
